@@ -638,6 +638,17 @@ def run(ctx):
         hangs = 0
         for sc in scs:
             obs = run_impl(sc)
+            if any('hang' in p for p in obs.get('problems', [])):
+                # the hang detector is wall-clock (the only one in this check): on a loaded machine a thread may
+                # simply not have been scheduled in time — re-run the scenario once with a generous limit before
+                # believing it
+                saved = W.HANG_S
+                W.HANG_S = 90
+                try:
+                    obs = run_impl(sc)
+                finally:
+                    W.HANG_S = saved
+                ctx.count('hang_retried')
             if obs['skipped']:
                 ctx.count('skipped.' + obs['skipped'])
             results.append(obs)
